@@ -152,6 +152,6 @@ Definition run_reduce (inp : list Z) : list Z :=
 (* input: partitioner threads lo hi grain (the first two are ignored); output: preorder encoding of the split/join tree *)
 Definition run_dreduce (inp : list Z) : list Z :=
   match inp with
-  | [_; _; lo; hi; g] => dflat (dsplit (dfuel lo hi) lo hi g)
+  | _ :: _ :: lo :: hi :: g :: _ => dflat (dsplit (dfuel lo hi) lo hi g)
   | _ => []
   end.
